@@ -7,6 +7,7 @@ import (
 	"sort"
 	"strings"
 	"testing"
+	"time"
 
 	"verif/lib/evid"
 	"verif/lib/execgen"
@@ -301,7 +302,14 @@ func TestC28(t *testing.T) {
 	kindPoints := map[string]int{}
 	kindsSeen := map[string]bool{}
 	total := 0
+	prevName, prevStart, prevRuns := "", time.Now(), 0
 	for _, it := range mine {
+		if debugCollect() {
+			if prevName != "" {
+				fmt.Printf("DEBUG-ITEM %-28s %8s runs=%d\n", prevName, time.Since(prevStart).Round(time.Millisecond), total-prevRuns)
+			}
+			prevName, prevStart, prevRuns = it.Name, time.Now(), total
+		}
 		for _, eng := range host.Engines {
 			// clean run, keeping the state before every step
 			h := execgen.NewHost(it)
@@ -323,8 +331,11 @@ func TestC28(t *testing.T) {
 					// cost cap (deterministic): big steps (thousands of host calls, seconds per re-run)
 					// get fewer points
 					maxPts := 45
-					if len(pts) > 1500 {
-						maxPts = 8
+					switch {
+					case len(pts) > 600:
+						maxPts = 4
+					case len(pts) > 150:
+						maxPts = 10
 					}
 					for _, pt := range pts {
 						if (pt.index <= 3 || sampler.Intn(40) == 0) && len(keep) < maxPts {
@@ -381,6 +392,7 @@ func TestC28(t *testing.T) {
 		}
 	}
 
+	_ = 0
 	// coverage: every reachable callback kind must have been faulted at least once
 	var missing []string
 	for _, k := range reachableKinds {
@@ -395,6 +407,7 @@ func TestC28(t *testing.T) {
 	if len(missing) > 0 {
 		rec.Inconclusive(t, "callback kinds never reached by the corpus: %v", missing)
 	}
+	rec.Extra("exhaustive_scope", "hand-written corpus x every (callback kind, k) of every step x 3 variants x 2 engines is enumerated completely; generated / plugged-in histories: every k <= 3 plus a sample, capped per step")
 	rec.SetExhaustive(true)
 }
 
